@@ -24,10 +24,12 @@ def main():
     checks = []
     na = []
     props = [json.loads(l) for l in open(os.path.join(VERIF, 'properties.jsonl'))]
+    import subprocess
+    tracked = set(subprocess.run(['git', '-C', VERIF, 'ls-files', 'vmon/props'], capture_output=True, text=True).stdout.split())
     for p in props:
         pid = p['id']
         path = os.path.join(VERIF, 'vmon', 'props', pid.lower() + '.py')
-        if pid in NOT_CLAIMED or not os.path.exists(path):
+        if pid in NOT_CLAIMED or not os.path.exists(path) or f'vmon/props/{pid.lower()}.py' not in tracked:
             na.append({'property_id': pid, 'reason': NOT_CLAIMED.get(pid, 'check not built yet (work in progress in this session); no claim is made')})
             continue
         mod = importlib.import_module(f'vmon.props.{pid.lower()}')
